@@ -358,5 +358,44 @@ pub fn find_vertices(tracks: Vec<Track>) -> VertexingResult {
     )
 }
 
+#[cfg(feature = "verif-hooks")]
+#[doc(hidden)]
+pub mod verif_hooks {
+    use super::*;
+    fn helix(p: [f64; 6]) -> Helix {
+        Helix {
+            x0: Length::new::<meter>(p[0]),
+            y0: Length::new::<meter>(p[1]),
+            z0: Length::new::<meter>(p[2]),
+            r: Length::new::<meter>(p[3]),
+            phi0: Angle::new::<radian>(p[4]),
+            h: Length::new::<meter>(p[5]),
+        }
+    }
+    pub fn cluster_from_points(points: Vec<SpacePoint>) -> Cluster {
+        Cluster(points)
+    }
+    pub fn track_from_helix(p: [f64; 6], t_inner: f64, t_outer: f64) -> Track {
+        Track { helix: helix(p), t_inner, t_outer }
+    }
+    pub fn helix_params(t: &Track) -> [f64; 6] {
+        let h = t.helix;
+        [
+            h.x0.get::<meter>(),
+            h.y0.get::<meter>(),
+            h.z0.get::<meter>(),
+            h.r.get::<meter>(),
+            h.phi0.get::<radian>(),
+            h.h.get::<meter>(),
+        ]
+    }
+    pub fn helix_closest_t(p: [f64; 6], sp: SpacePoint, tolerance: f64, max_num_iter: usize) -> f64 {
+        helix(p).closest_t(sp, tolerance, max_num_iter)
+    }
+    pub fn helix_at(p: [f64; 6], t: f64) -> Coordinate {
+        helix(p).at(t)
+    }
+}
+
 #[cfg(test)]
 mod tests;
